@@ -114,6 +114,16 @@ class C14(Prop):
                                                                   '  last %s *b*', '/*\nlast\n*/']).replace('%s', w))
                     parts[k + 1] = rng.choice(['first %s *b* & {m1}', '``\nfirst %s *b* {m1}\n``', '..\nfirst %s *b* {m1}\n..',
                                                '> first %s *b*']).replace('%s', w) + '\n\n' + parts[k + 1]
+            if rng.random() < 0.25 and m == 0:
+                # the same inline text before and after something that changes what it renders to (an option element, a
+                # definition), the second time in the next call: nothing rendered earlier may be reused in either arrangement
+                t = rng.choice(['Press <kbd>Enter</kbd> to *go* on', 'see <<#a1>> and <b>bold</b> here', 'a `code` _em_ teh end', 'x <!-- c --> y <br> z',
+                                'say {m1} and *star*', 'url http://u.v/p and <i>i</i>'])
+                switch = rng.choice([".safeMode = '1'", ".safeMode = '2'", ".safeMode = '7'", ".htmlReplacement = 'GONE'\n.safeMode = '2'",
+                                     "* = '<b>|</b>'", "_ = '<u>|</u>'", "/teh/ = 'the'", "{m1} = 'redefined'", "` = '<tt>|</tt>'"])
+                k = rng.randrange(len(parts) - 1)
+                parts[k] += '\n\n' + t + '\n\n' + switch
+                parts[k + 1] = t + '\n\n' + parts[k + 1]
             if rng.random() < 0.1 and (m == 0 or m & 8):
                 # a chain of line macros about as deep as the nesting limit in one part, a line macro in the next
                 depth = rng.choice([9, 10, 10, 11])
@@ -217,15 +227,31 @@ class C15(Prop):
         rng = ctx.rng
         while True:
             docs = []
+            modes = []
+            reset_at = rng.choice([None, None, 1, 2])
+            eff = 0
             for d in range(rng.randint(1, 4)):
+                # the safe mode of a later call: the id registry belongs to the session, not to a mode
+                mode = None if d == 0 else rng.choice([None, None, None, 1, 2, 3, 8, 9, 11, 4, 5, 6, 7, 12, 13, 15])
+                if d == reset_at:
+                    eff = 0
+                if mode is not None:
+                    eff = mode
+                modes.append(mode)
                 els = []
                 if d == 0 or rng.random() < 0.2:
                     v = rng.choice(['true', 'true', 'x', ''])
-                    els.append({'src': "{--header-ids} = '%s'" % v, 'ev': [['hid', v]]})
+                    # a macro definition counts at safe mode 0 and with bit 8
+                    els.append({'src': "{--header-ids} = '%s'" % v, 'ev': [['hid', v]] if (eff == 0 or eff & 8) else []})
                 for _ in range(rng.randint(1, 5)):
-                    els.append(self.element(rng))
+                    e = self.element(rng)
+                    if eff & 4:
+                        # Block Attributes are ignored: headers and plain paragraphs only (generated ids go on as before)
+                        while any(ev[0] == 'explicit' for ev in e['ev']):
+                            e = self.element(rng)
+                    els.append(e)
                 docs.append(els)
-            yield {'docs': docs, 'reset_at': rng.choice([None, None, 1, 2])}
+            yield {'docs': docs, 'reset_at': reset_at, 'modes': modes}
 
     def execute(self, case, ctx, res):
         steps = []
@@ -233,6 +259,8 @@ class C15(Prop):
             st = {'src': '\n\n'.join(e['src'] for e in d), 'callback': True}
             if i == 0:
                 st['safeMode'] = 0
+            elif case.get('modes') and case['modes'][i] is not None:
+                st['safeMode'] = case['modes'][i]
             if case['reset_at'] == i and i > 0:
                 st['reset'] = True
             steps.append(st)
